@@ -231,6 +231,18 @@ class C14(Prop):
                         out.append(mk_case(kind, flavor, evs, {"kind": kind}))
         out += self.take_cases(tier, rng)
         out += self.drop_cases(tier, rng)
+        # two tasks taking turns on one future / stream (harness field `twowakers`: the polls alternate between two
+        # long-lived wakers A, B, A, …): the one to be woken is the waker of the LAST poll (seed C14-11 remembered the
+        # first waker and skipped the re-registration when it came back)
+        for kind in ("future", "collectfuture", "stream"):
+            for flavor in ("local", "threads"):
+                for npolls in (1, 2, 3, 4, 5):
+                    for pre in ([], [emit(N(1))]):
+                        for term in ([emit(N(2)), emit("c")], [emit("c")], [emit(E(7))]):
+                            evs = [POLL] * npolls + pre + ([POLL] if pre and kind == "stream" else []) + term + [POLL, POLL]
+                            c = mk_case(kind, flavor, evs, {"kind": kind + "-twowakers"})
+                            c.fields = [("twowakers", ["1"])] + c.fields
+                            out.append(c)
         # random longer histories
         n = 400 if tier == "quick" else 4000
         for _ in range(n):
